@@ -243,6 +243,8 @@ def run(ctx):
                   {"call": "c_hydrodiy_stat.ensrank", "eps": eps, "sim": sim, "code": code,
                    "fmat_upper": fs, "ranks": ranks},
                   ("ensrank", min(n, 4), min(m, 4), mode, code))
+        if math.isnan(eps):
+            return
         if code != 0 or n == 0 or m == 0:
             if eps >= 1e-20 and n > 0 and m > 0:
                 fail(idx, "C10/ensrank/valid-input-rejected", f"ensrank returned {code} for eps={eps}, {n}x{m}")
@@ -265,6 +267,16 @@ def run(ctx):
         m = rng.choice([1, 1, 2, 3, rng.randint(1, mmax)])
         sim, mode = gen_ensembles(rng, n, m)
         eps = rng.choice([1e-6, 1e-6, 1e-9, 1e-8, 1e-4, 1e-3, 1e-19])
+        r = rng.random()
+        if r < 0.08:
+            # a coarse tie tolerance on coarse data (lattice step 8)
+            eps = rng.choice([2.0, 1.0, 1.5])
+            sim = [[v * 800.0 for v in row] for row in sim]
+            mode += "+eps>=1"
+        elif r < 0.14:
+            # large magnitudes (exact scaling: ties stay ties)
+            sim = [[v * 2.0 ** 62 for v in row] for row in sim]
+            mode += "+large"
         do_ensrank(eps, sim, mode)
     # error paths of the kernel
     for eps, sim in [(1e-21, [[1.0, 2.0], [2.0, 3.0]]), (0.0, [[1.0], [2.0]]), (-1.0, [[1.0], [2.0]]),
